@@ -3,4 +3,9 @@ HARNESSES = [
     COMMON["dec12"]("poison12", ["C15"], COMMON["dec12_cases"](64, 40, dtls_only=("dtls10", "dtls12n")) + COMMON["dec12_cases"](96, 56, tier="thorough")),
     COMMON["dec13"]("poison13", ["C15"], ns=((48, "quick"), (96, "thorough"))),
 ]
-PROPERTY = dict(level="model_checking", explanation="", bounds="", outside="", assumptions=[])
+PROPERTY = dict(level='model_checking',
+    claim='Every decode return with a queued fatal alert poisons the session (SSL_FLAGS_ERROR) and never reports success/data; received fatal alerts / close_notify flag the session; undecryptable TLS 1.3 records are skipped only for rejected early data within the limit.',
+    bounds='as C01',
+    outside='encode-side guards and the API entry guard are not yet encoded',
+    explanation='Every decode return with a queued fatal alert poisons the session (SSL_FLAGS_ERROR) and never reports success/data; received fatal alerts / close_notify flag the session; undecryptable TLS 1.3 records are skipped only for rejected early data within the limit.',
+    assumptions=[])
